@@ -197,11 +197,12 @@ impl ModelSecp {
 			.kernel_sig_msg()
 			.unwrap()
 		};
+		let bx = blind(x);
 		let sig = {
 			let secp = static_secp_instance();
 			let secp = secp.lock();
 			let pk = excess.to_pubkey(&secp).expect("excess pubkey");
-			aggsig::sign_with_blinding(&secp, &msg, &blind(x), Some(&pk)).expect("sign")
+			aggsig::sign_with_blinding(&secp, &msg, &bx, Some(&pk)).expect("sign")
 		};
 		let kern = TxKernel {
 			features,
